@@ -246,6 +246,14 @@ fn unop(op: &str, args: &[&str]) -> String {
             let d = dec(args[0]);
             match Decimal::from_str(&d.to_string()) { Ok(e) => show(e), Err(e) => format!("ERR {:?}", e) }
         }
+        "serde_roundtrip" => {
+            // feature serde-as-str through a real (de)serializer: JSON text, then the value parsed back from it
+            let d = dec(args[0]);
+            match serde_json::to_string(&d) {
+                Ok(js) => match serde_json::from_str::<Decimal>(&js) { Ok(e) => format!("STR {} {}", js, show(e)), Err(e) => format!("STR {} DEERR {}", js, e) },
+                Err(e) => format!("SERERR {}", e),
+            }
+        }
         "fmt" => {
             // fmt d prec|- width|- flags   flags subset of "<^>+0" and optional fill char as f<char>
             let d = dec(args[0]);
